@@ -32,7 +32,7 @@ func Pool(a Args) {
 	exe, err := os.Executable()
 	must(err)
 	args := []string{"pool-child", "-out", a.Out, "-seed", fmt.Sprint(a.Seed), "-n", fmt.Sprint(a.N), "-len", fmt.Sprint(a.Len),
-		"-mode", a.Mode, "-dir", a.Dir, "-workers", fmt.Sprint(a.Workers), "-sizes", a.Sizes, "-dribble", fmt.Sprint(a.Dribble)}
+		"-mode", a.Mode, "-dir", a.Dir, "-workers", fmt.Sprint(a.Workers), "-sizes", a.Sizes, "-dribble", fmt.Sprint(a.Dribble), "-keylen", fmt.Sprint(a.KeyLen)}
 	cmd := exec.Command(exe, args...)
 	out, err := cmd.CombinedOutput()
 	exit := 0
@@ -352,6 +352,12 @@ wait:
 		if p := atomic.LoadInt64(&progress); p != last {
 			last, lastAt = p, time.Now()
 		} else if time.Since(lastAt) > 60*time.Second {
+			hung = true
+			break wait
+		}
+		// ... or a crawl: the workload normally takes seconds; -keylen carries a budget in seconds (twenty times
+		// that and more) beyond which calls that each take their full retry time count as not being served
+		if a.KeyLen > 0 && time.Since(t0) > time.Duration(a.KeyLen)*time.Second {
 			hung = true
 			break wait
 		}
